@@ -31,7 +31,7 @@ def info(tier):
         "grammar, depth<=4, seeded) evaluated at 3 regular points (margin>=1e-2, |.|<=1e6) through 6 routes; every second directed and every sixth random recipe "
         "also as a DAG (the recipe occurring 2-4 times as ONE shared object inside t*t+t, sin(t)/(t*t+1.5), ...); a case is "
         "non-trivial if it has >=2 operator nodes; distinct = distinct canonical recipe+V hashes",
-        "required_cells": X.required_cells() + [c for c, _, _ in same_name_batches()] + ["shared-subexpressions|" + v for v in X.VRELS]
+        "required_cells": X.required_cells() + [c for c, _, _ in same_name_batches()] + ["shared-subexpressions|" + v for v in X.VRELS] + [c for c, _, _ in kink_cases()]
         + [f"special:{k}|{v}" for k in ("tiny", "near-one", "near-integer-exponent", "near-integer-vpow", "near-zero") for v in ("exact", "superset_permuted")],
         "assumptions": [
             "NumPy ufuncs are the arithmetic substrate of both optyx and the reference",
@@ -313,8 +313,76 @@ def run_same_name_batch(rec, rng, cell, views, mk):
                                                                            "route": route, "got": g, "want": want})
 
 
+def kink_cases():
+    """(cell, node, point): points on a kink of the expression where its VALUE is perfectly defined (a norm at the origin, |x| at 0,
+    a distance between coinciding points) - derivatives are C19's business, the value is C01's"""
+    y, x = ["vec", "y"], ["vec", "x"]
+    z3 = {"y[0]": 0.0, "y[1]": 0.0, "y[2]": 0.0}
+    c = [0.5, -1.25, 2.0]
+    at_c = {"y[0]": c[0], "y[1]": c[1], "y[2]": c[2]}
+    same = {"y[0]": 0.75, "y[1]": -0.5, "y[2]": 1.5, "x[1]": 0.75, "x[2]": -0.5, "x[3]": 1.5}
+    return [
+        ("kink:norm2@origin", ["norm", y, 2, "method"], z3), ("kink:norm2-function@origin", ["norm", y, 2], z3),
+        ("kink:norm1@origin", ["norm", y, 1, "method"], z3), ("kink:norm2(y-c)@y=c", ["norm", ["vbin", "-", y, ["arr", c]], 2], at_c),
+        ("kink:norm2(y-x[1:4])@equal", ["norm", ["vbin", "-", y, ["slice", x, 1, 4, None]], 2], same),
+        ("kink:sqrt(y.y)@origin", ["fn", "sqrt", ["dot", y, y]], z3), ("kink:abs@0", ["bin", "+", ["fn", "abs", ["var", "a"]], ["var", "b"]], {"a": 0.0, "b": 1.5}),
+        ("kink:sum-abs@origin", ["sum", ["vfn", "abs", y]], z3), ("kink:norm2*scalar@origin", ["bin", "*", ["norm", y, 2, "method"], ["var", "a"]], {**z3, "a": 2.0}),
+        ("kink:fro@zero-matrix", ["fro", ["mat", "A"]], {f"A[{i},{j}]": 0.0 for i in range(2) for j in range(3)}),
+        ("kink:norm2@one-zero-component", ["norm", y, 2, "method"], {"y[0]": 0.0, "y[1]": -3.0, "y[2]": 4.0}),
+        ("kink:norm2@largest-entry-zero", ["norm", y, 2], {"y[0]": 0.0, "y[1]": -3.0, "y[2]": -4.0}),
+    ]
+
+
+def run_kink(rec, rng, cell, node, spt):
+    from optyx.core import compiler as C
+
+    D = R.Decls(X.D0)
+    used = R.ref_vars(D, node)
+    V = R.natural_sorted(set(used) | {"zz"})
+    if rng.random() < 0.5:
+        V = list(reversed(V))
+    pt = {nm: 0.9 for nm in D.all_var_names()}
+    pt["zz"] = 0.3
+    pt.update(spt)
+    rec.case({"kink": cell, "V": V})
+    want, _t = R.ref_value(D, node, pt)
+    show = {"expr": A.render(node), "V": V, "point": {k: pt[k] for k in V}}
+    try:
+        b = B.Builder(X.D0)
+        e = b.S(node)
+        Vobjs = b.variables(V)
+        xarr = B.point_array(V, pt)
+        ce = C.CompiledExpression(e, Vobjs)
+        obs = {"evaluate": lambda: e.evaluate(dict(pt)), "compile": lambda: C.compile_expression(e, Vobjs)(xarr),
+               "dict": lambda: C.compile_to_dict_function(e, Vobjs)({nm: pt[nm] for nm in V}), "CompiledExpression": lambda: ce.value(xarr)}
+        old = C._RECURSION_THRESHOLD
+        try:
+            C._RECURSION_THRESHOLD = 1
+            b2 = B.Builder(X.D0)
+            fn_it = C.compile_expression(b2.S(node), b2.variables(V))
+        finally:
+            C._RECURSION_THRESHOLD = old
+        obs["compile-iterative"] = lambda: fn_it(xarr)
+    except Exception as ex:
+        rec.violation("kink:build-or-compile-raises:" + type(ex).__name__, {"show": show, "error": repr(ex)[:200]})
+        return
+    for route, f in obs.items():
+        rec.cmp(1, cell)
+        try:
+            with np.errstate(all="ignore"):
+                got = _scalar(f())
+        except Exception as ex:
+            rec.violation(f"{route}:raises-at-a-kink:{type(ex).__name__}", {"show": show, "error": repr(ex)[:200]})
+            continue
+        if not close(got, want, RTOL, 10.0)[0]:
+            rec.violation(f"{route}:value-wrong-at-a-kink", {"show": show, "got": got, "want": want, "cell": cell})
+
+
 def run(ctx, rec):
     rng = ctx.rng
+    for i, (cell, node, spt) in enumerate(kink_cases()):
+        if ctx.mine(i):
+            run_kink(rec, rng, cell, node, spt)
     k = 0
     for case in X.directed_cases(rng, ctx.mine):
         run_case(case, rec)
